@@ -4,6 +4,8 @@ import numpy as np
 from common import enc_f, dec_f, close, rng
 
 LEAN_MODULE = 'PGM.Properties.C19'
+LEAN_EXTRA = ['PGM.Properties.C19G']
+TRANSLATORS = ('py2pub', 'py2total')     # py2total: C19G cites TotalG.estimateTotal_public (C09G); entropic_mirror_descent, PublicInference.__init__/estimate/_marginal_loss of public_inference.py -> Generated/PublicG.lean, proved equal to Model/Public.lean in C19G
 TRUSTED = ['Lean 4.33 kernel', 'axioms: propext, Classical.choice, Quot.sound',
            'hand model PGM/Model/Public.lean of entropic_mirror_descent (as written, stale P included) tied to public_inference.py by running the Float instance on the same objective and comparing the weights',
            'the objective as a function of the record weights is the quadratic Cert.loss with A = (1/noise) Q Inc (Inc = record -> cell incidence); compared with PublicInference\'s own loss per run',
